@@ -4,8 +4,9 @@ import json, os, shutil, sys
 ROOT = os.path.dirname(os.path.dirname(os.path.abspath(__file__)))
 pid, n, needs = sys.argv[1], sys.argv[2], sys.argv[3]
 confirmed = sys.argv[4] if len(sys.argv) > 4 else ""
-out = "/tmp/seed/%s-out" % pid
-dst = os.path.join(ROOT, "seeded", "%s-%s" % (pid, n))
+seedroot = os.environ.get("SEEDROOT", "/tmp/seed")
+out = "%s/%s-out" % (seedroot, pid)
+dst = os.path.join(ROOT, "seeded", "%s-%s" % (pid, int(n) + int(os.environ.get("NOFFSET", "0"))))
 os.makedirs(dst, exist_ok=True)
 shutil.copy(os.path.join(out, "change%s.diff" % n), os.path.join(dst, "patch.diff"))
 shutil.copy(os.path.join(out, "demo%s.py" % n), os.path.join(dst, "demo.py"))
@@ -14,6 +15,6 @@ if os.path.exists(os.path.join(out, "notes%s.md" % n)):
 meta = {"property": pid, "checks": [pid], "origin": "independent sub-agent given only the property text and a scratch worktree",
         "needs_to_manifest": needs,
         "confirmed_by_lead": confirmed or "tools/confirm_seed.sh %s %s: demo exit 0 on clean worktree, non-zero with patch; baseline suite with patch: 151 passed, 90 collection errors (unchanged)" % (pid, n),
-        "demo_cmd": "cd <scratch cwd> && PYTHONPATH=<worktree>/src:/var/tmp/stubs /venv/bin/python demo.py (paths inside demo.py refer to /tmp/seed/%s; tools/confirm_seed.sh rewrites them)" % pid}
+        "demo_cmd": "cd <scratch cwd> && PYTHONPATH=<worktree>/src:/var/tmp/stubs /venv/bin/python demo.py (paths inside demo.py refer to %s/%s; tools/confirm_seed.sh rewrites them)" % (seedroot, pid)}
 json.dump(meta, open(os.path.join(dst, "meta.json"), "w"), indent=1)
 print("kept", dst)
